@@ -305,6 +305,10 @@ class Run(object):
         self.models = [{} for _ in range(k)]
         self.t = 0
         self.iters = {}
+        # one-shot (generator) keys are beyond "str / list / tuple keys": an
+        # implementation that wants real sequences may reject them with TypeError;
+        # from then on the run passes lists instead
+        self.gen_ok = True
         self.universe = query_universe([dec_token(t) for t in config["alphabet"]], config["depth"])
         self.sweeps = 0
 
@@ -332,13 +336,27 @@ class Run(object):
             self.fail(invariant, op, got, expected, detail)
 
     # -- point queries ----------------------------------------------------------
+    def keyed(self, fn, key, form):
+        """fn(key object): the key in the given form; a one-shot key the
+        implementation rejects as not being a sequence is passed again as a list."""
+        if form == "gen" and not self.gen_ok:
+            form = "list"
+        if form != "gen":
+            return fn(make_key(key, form))
+        try:
+            return fn(make_key(key, "gen"))
+        except (TypeError, AttributeError):
+            self.gen_ok = False
+            self.stats.probe("one_shot_key_rejected")
+            return fn(make_key(key, "list"))
+
     def q_get(self, key, form, op):
-        got = self.trie.get(make_key(key, form), ABSENT)
+        got = self.keyed(lambda k: self.trie.get(k, ABSENT), key, form)
         self.expect("get", op, got, self.model.get(key, ABSENT), {"key": list(key), "form": form})
 
     def q_getitem(self, key, form, op):
         try:
-            got = self.trie[make_key(key, form)]
+            got = self.keyed(lambda k: self.trie[k], key, form)
         except KeyError:
             got = "KeyError"
             if key not in self.model:
@@ -347,7 +365,7 @@ class Run(object):
         self.expect("getitem", op, got, expected, {"key": list(key), "form": form})
 
     def q_lmpv(self, key, form, op):
-        got = self.trie.longest_matching_prefix_value(make_key(key, form))
+        got = self.keyed(self.trie.longest_matching_prefix_value, key, form)
         expected = model_lmpv(self.model, key)
         self.expect("lmpv", op, got, expected, {"key": list(key), "form": form})
 
@@ -478,12 +496,14 @@ class Run(object):
             if any(k != key and key[: len(k)] == k for k in model):
                 stats.probe("key_extends_existing")
             stats.probe(ev["form"] + "_form")
-            passed = make_key(key, ev["form"])
-            self.trie[passed] = value
-            if isinstance(passed, list):
-                # the key object stays the caller's: reusing or changing it after
-                # the call must not reach into the container
-                passed[:] = ["caller", "reuses", "its", "list"]
+            def assign(passed):
+                self.trie[passed] = value
+                if isinstance(passed, list):
+                    # the key object stays the caller's: reusing or changing it after
+                    # the call must not reach into the container
+                    passed[:] = ["caller", "reuses", "its", "list"]
+
+            self.keyed(assign, key, ev["form"])
             model[key] = value
             stats.event("%s|set|%s|%s|%s" % (ev.get("c"), canon(ev["key"]), ev["form"], canon(ev["val"])))
             stats.transition(before + "|set|" + canon(ev["key"]) + canon(ev["val"]))
@@ -507,6 +527,16 @@ class Run(object):
                 if attempt:
                     stats.probe("failed_call_retried")
                 if ev["kind"] == "key_iter_raises":
+                    if outcome == "rejected" and self.gen_ok:
+                        # rejected because the key is no real sequence? then a
+                        # healthy one-shot key is rejected by the assignment too
+                        try:
+                            self.trie[make_key(key, "gen")] = dec_value(ev["val"])
+                        except (TypeError, AttributeError):
+                            self.gen_ok = False
+                            stats.probe("one_shot_key_rejected")
+                    if not self.gen_ok and outcome == "rejected":
+                        continue
                     # the caller's own exception must come back to the caller
                     self.expect("failed_assignment_propagates", "set_fault", outcome, "SimFault", {"key": ev["key"], "k": k, "attempt": attempt})
                 elif outcome == "returned":
@@ -517,12 +547,12 @@ class Run(object):
             key = tuple(ev["key"])
             form = ev.get("form", "list")
             if op == "get":
-                got = self.trie.get(make_key(key, form))
+                got = self.keyed(self.trie.get, key, form)
                 exp = model.get(key)
                 self.expect("get", op, got, exp, {"key": ev["key"], "form": form})
             elif op == "get_default":
                 d = dec_value(ev["default"])
-                got = self.trie.get(make_key(key, form), d)
+                got = self.keyed(lambda k: self.trie.get(k, d), key, form)
                 exp = model.get(key, d)
                 self.expect("get", op, got, exp, {"key": ev["key"], "form": form, "default": ev["default"]})
             elif op == "getitem":
@@ -742,6 +772,7 @@ PROBES = [
     "tuple_form",
     "gen_form",
     "keyerror",
+    "one_shot_key_rejected",
     "lmpv_strict_prefix_hit",
     "lmpv_longest_is_none",
     "iterators_interleaved",
